@@ -29,6 +29,8 @@ import (
 var flagOnly = flag.String("only", "", "comma separated sections to run: prims,subtle,multi,handles,keys,registry (default all)")
 var flagKeys = flag.String("keys", "", "substring filter on pool key names (debugging)")
 
+var logw = os.Stderr
+
 func want(section string) bool {
 	if *flagOnly == "" {
 		return true
@@ -54,7 +56,7 @@ func child() {
 	o := hlib.Open("C18")
 	defer o.Close()
 	seed := *hlib.FlagSeed
-	e := &engine{o: o, seed: seed, start: time.Now(), classT: map[string]time.Duration{}}
+	e := &engine{o: o, seed: seed, start: time.Now(), classT: map[string]time.Duration{}, verbose: os.Getenv("C18_VERBOSE") != ""}
 
 	// the pool is generated from a seeded reader (single goroutine); everything concurrent
 	// afterwards uses the real crypto/rand reader again
@@ -95,12 +97,13 @@ func child() {
 	}
 	// handle / key / registry sections come first: they need handles and registry paths that no
 	// sequential code has touched more than necessary
-	section("handles", func() { e.handleSection(its) })
-	section("keys", func() { e.keySection(its) })
+	lanes := 6
 	section("registry", func() { e.registrySection(pool, its) })
-	section("prims", func() { e.primSection(its) })
-	section("multi", func() { e.multiSection(its) })
-	section("subtle", func() { e.subtleSection() })
+	section("handles", func() { e.runJobs(e.handleJobs(its), lanes) })
+	section("keys", func() { e.runJobs(e.keyJobs(its), lanes) })
+	section("prims", func() { e.runJobs(e.primJobs(its), lanes) })
+	section("multi", func() { e.runJobs(e.multiJobs(its), lanes) })
+	section("subtle", func() { e.runJobs(e.subtleJobs(), lanes) })
 
 	var names []string
 	for k := range timings {
@@ -126,63 +129,62 @@ func child() {
 
 // ---------------------------------------------------------------- section 1
 
-func (e *engine) tryTarget(id, class string, cost int, big bool, mk maker, extra func(t *target, r *hlib.Rng, p *prims) error, light bool) {
-	var t *target
-	var err error
-	t0 := time.Now()
-	defer func() {
-		e.classT[class] += time.Since(t0)
-		if os.Getenv("C18_VERBOSE") != "" {
-			fmt.Fprintf(os.Stderr, "c18: target %-60s %6.2fs\n", id, time.Since(t0).Seconds())
+func (e *engine) targetJob(id, class string, cost int, big bool, mk maker, extra func(t *target, r *hlib.Rng, p *prims) error, light bool) job {
+	return job{id: id, cost: cost, run: func() *report {
+		rep := newReport(id, class)
+		var t *target
+		var err error
+		if p := hlib.Recover(func() { t, err = buildTarget(e.seed, id, class, cost, big, mk, extra) }); p != "" {
+			rep.violate("panic while building the sequential oracle of %s: %s", id, trunc(p, 200))
+			rep.count("oracle-panic/" + class)
+			return rep
 		}
-	}()
-	if p := hlib.Recover(func() { t, err = buildTarget(e.seed, id, class, cost, big, mk, extra) }); p != "" {
-		e.o.Violate("panic while building the sequential oracle of %s: %s", id, trunc(p, 200))
-		e.o.Count("oracle-panic/" + class)
-		return
-	}
-	if err != nil {
-		if err == errNoDirect {
-			return
+		if err != nil {
+			if err == errNoDirect {
+				return nil
+			}
+			rep.count("no-target/" + strings.SplitN(id, ":", 2)[0] + "/" + class)
+			if e.verbose {
+				fmt.Fprintf(logw, "c18: no target %s: %v\n", id, err)
+			}
+			return rep
 		}
-		e.o.Count("no-target/" + strings.SplitN(id, ":", 2)[0] + "/" + class)
-		if os.Getenv("C18_VERBOSE") != "" {
-			fmt.Fprintf(os.Stderr, "c18: no target %s: %v\n", id, err)
-		}
-		return
-	}
-	e.run(t, light)
+		runTarget(rep, e.seed, t, light)
+		return rep
+	}}
 }
 
-func (e *engine) primSection(its []*item) {
+func (e *engine) primJobs(its []*item) (jobs []job) {
 	th := hlib.Thorough()
 	directSeen := map[string]bool{}
 	kmSeen := map[string]bool{}
 	for _, it := range its {
 		cl := it.pk.Class
 		// keyset-level factory: every key, all goroutine counts
-		e.tryTarget("ks:"+cl+":"+it.token, cl, it.cost, it.big, it.mkKS(), nil, false)
-		// per-key full primitive: every key (quick tier: one goroutine count; slowest keys in
-		// the thorough tier only, they are the same objects the keyset factory wraps)
+		jobs = append(jobs, e.targetJob("ks:"+cl+":"+it.token, cl, it.cost, it.big, it.mkKS(), nil, false))
+		// per-key full primitive: every key (quick tier: one goroutine count; the slowest keys in
+		// the thorough tier only — they are the objects the keyset factory wraps)
 		if th || it.cost <= 2 {
-			e.tryTarget("full:"+cl+":"+it.token, cl, it.cost, false, it.mkFull(), nil, !th)
+			jobs = append(jobs, e.targetJob("full:"+cl+":"+it.token, cl, it.cost, false, it.mkFull(), nil, !th))
 		}
 		// exported constructor called directly: one key per Go key type
 		ty := fmt.Sprintf("%T", it.key)
 		if (!directSeen[ty] || th) && (th || it.cost <= 2) {
 			directSeen[ty] = true
-			e.tryTarget("direct:"+cl+":"+it.token, cl, it.cost, false, it.mkDirect(), nil, !th)
+			jobs = append(jobs, e.targetJob("direct:"+cl+":"+it.token, cl, it.cost, false, it.mkDirect(), nil, !th))
 		}
 		// legacy key manager: one key per type URL
 		if (!kmSeen[it.pk.Type] || th) && (th || it.cost <= 2) {
 			kmSeen[it.pk.Type] = true
-			e.tryTarget("km:"+cl+":"+it.token, cl, it.cost, false, it.mkKM(), nil, !th)
+			jobs = append(jobs, e.targetJob("km:"+cl+":"+it.token, cl, it.cost, false, it.mkKM(), nil, !th))
 		}
 	}
+	return
 }
 
-func (e *engine) subtleSection() {
+func (e *engine) subtleJobs() (jobs []job) {
 	for _, s := range subtleSpecs(e.seed) {
-		e.tryTarget("subtle:"+s.class+":"+s.name, s.class, s.cost, s.big, s.mk, s.extra, false)
+		jobs = append(jobs, e.targetJob("subtle:"+s.class+":"+s.name, s.class, s.cost, s.big, s.mk, s.extra, false))
 	}
+	return
 }
